@@ -7,12 +7,24 @@ import subprocess
 ROOT = os.path.dirname(os.path.dirname(os.path.abspath(__file__)))
 
 # id -> (category, technique, level text, level note, design ref)
+TP_NOTE = ("trusted: gcc ASan/UBSan/LSan/TSan runtimes, the kernel's pipe/epoll semantics, the harness event log (per-thread, owner-written, "
+           "relaxed atomics only so it adds no happens-before edges); interleavings and fault positions outside the sampled/enumerated set are unexamined")
+
 CHECKS = {
+    "C05": ("exploration", "runtime monitoring: real pool under ASan+UBSan+LSan and TSan, offline exactly-once/FIFO/affinity checker over a client-boundary event log, injected queue write/read faults, seeded schedule perturbation",
+            "Held on the executions explored: hundreds of seeded scenarios (pool sizes 1-16, external/pool/self senders, all 8 flag combinations, never-started and STARTING destinations, shared virtual thread, pipe-full EAGAIN, injected EAGAIN/EPIPE/EBADF at the first 64 queue writes and sampled later ones, EINTR/EAGAIN on queue reads) with every message carrying a unique id and every history checked offline; exploration because schedules are sampled, not enumerated.",
+            TP_NOTE, "DESIGN.md 4 C05"),
+    "C10": ("exploration", "runtime monitoring: broadcast harness under ASan (stack-use-after-return on)+LSan and TSan; offline checker over callback intervals, call/return and completion records; send-failure positions enumerated",
+            "Held on the executions explored: every flag subset of bsend_ex/cbsend x caller kind (external, pool thread, thread of a second pool) x pool sizes 1-16, never-started thread subsets, back-to-back synchronous broadcasts from one stack frame, send failure at each position 1..threads+1, perturbation at the decrement and hand-over points; counts, exactly-once, sync completion, completion-callback affinity and one-by-one non-overlap are checked on every history.",
+            TP_NOTE, "DESIGN.md 4 C10"),
+    "C11": ("fault_enumeration", "runtime monitoring with fault enumeration: life-cycle histories under ASan+LSan/TSan with hook/late-callback/descriptor/thread balance monitors; every k-th calloc/epoll_create1/pipe2/epoll_ctl/pthread_create of pool creation failed via link-time interposers",
+            "Every resource acquisition of tp_create+tp_threads_create (counted by a dry run) is failed one at a time for every k and every kind for pools of 1, 2, 4 (16 in thorough) and the outcome checked (error returned, nothing left behind, hooks balanced); on top, seeded histories over create/threads_create/attach_first/shutdown (main, external, pool thread, concurrent)/wait/destroy incl. illegal orders with in-flight senders, timers and read events, perturbed at the guarded points.",
+            TP_NOTE + "; descriptor/thread balance read from /proc/self", "DESIGN.md 4 C11"),
 }
 
 PENDING_REASON = "check not built yet in this session (runtime-monitoring design exists in DESIGN.md section 4); not claimed until the check runs clean on the unchanged tree"
 
-HOOK_COMMITS = []
+HOOK_COMMITS = ["52f3009", "b1f2ab8", "3642a90"]
 
 
 def main():
